@@ -131,6 +131,146 @@ func randCigar(r *RNG, ref, template string, start, span int, o cigarOpts) (stri
 	return cig.String(), s
 }
 
+type cigOp struct {
+	n  int
+	op byte
+}
+
+func parseCigarOps(c string) []cigOp {
+	var out []cigOp
+	n := 0
+	for i := 0; i < len(c); i++ {
+		if c[i] >= '0' && c[i] <= '9' {
+			n = n*10 + int(c[i]-'0')
+		} else {
+			out = append(out, cigOp{n, c[i]})
+			n = 0
+		}
+	}
+	return out
+}
+
+// splitOverlap cuts ONE alignment (cigar, seq, 0-based start) into 2-3 records over overlapping reference intervals
+// that agree wherever they overlap. Every insertion is carried by exactly one of the records whose interval
+// contains its site, so the records are non-conflicting in the strictest sense: the query they describe is the
+// original one. Pieces may begin or end with a deletion, and an insertion may sit right at the end of another piece.
+func splitOverlap(r *RNG, cigar, seq string, start0 int, forceSite int) []samRec {
+	ops := parseCigarOps(cigar)
+	end := start0
+	for _, o := range ops {
+		if strings.IndexByte("MDN=X", o.op) >= 0 {
+			end += o.n
+		}
+	}
+	if end-start0 < 4 {
+		return nil
+	}
+	type iv struct{ from, to int }
+	var ivs []iv
+	c1 := r.Range(start0+1, end-2)
+	ivs = append(ivs, iv{start0, min(end, c1+r.Range(1, 6))})
+	if end-c1 >= 6 && r.Chance(1, 3) {
+		c2 := r.Range(c1+1, end-2)
+		ivs = append(ivs, iv{c1, min(end, c2+r.Range(1, 6))}, iv{c2, end})
+	} else {
+		ivs = append(ivs, iv{c1, end})
+	}
+	// half of the time, when there is an insertion well inside: the first piece ends 1-3 bases after that insertion's
+	// site and the insertion belongs to the second piece (so it is spliced into the first piece right before its end)
+	owner := map[int]int{}
+	{
+		var sites []int
+		p := start0
+		for _, o := range ops {
+			if strings.IndexByte("MDN=X", o.op) >= 0 {
+				p += o.n
+			} else if o.op == 'I' && p >= start0+2 && p < end-1 {
+				sites = append(sites, p)
+			}
+		}
+		if len(sites) > 0 && (r.Bool() || forceSite >= 0) {
+			site := sites[r.Intn(len(sites))]
+			if forceSite >= 0 {
+				site = forceSite
+			}
+			ivs = []iv{{start0, min(end, site+r.Range(1, 3))}, {r.Range(start0+1, site-1), end}}
+			owner[site] = 1
+		}
+	}
+	// assign each (other) insertion (by its site p: between reference bases p-1 and p) to one piece
+	{
+		p := start0
+		for _, o := range ops {
+			switch {
+			case strings.IndexByte("MDN=X", o.op) >= 0:
+				p += o.n
+			case o.op == 'I':
+				var cand []int
+				for k, v := range ivs {
+					if (v.from < p && p < v.to) || (p == start0 && k == 0) || (p == end && k == len(ivs)-1) {
+						cand = append(cand, k)
+					}
+				}
+				if _, fixed := owner[p]; !fixed && len(cand) > 0 {
+					owner[p] = cand[r.Intn(len(cand))]
+				}
+			}
+		}
+	}
+	var out []samRec
+	for k, v := range ivs {
+		var cg, sq strings.Builder
+		if r.Chance(1, 2) {
+			fmt.Fprintf(&cg, "%dH", r.Range(1, 30))
+		}
+		p, q := start0, 0
+		for _, o := range ops {
+			switch {
+			case o.op == 'H' || o.op == 'P':
+			case o.op == 'S':
+				q += o.n
+			case o.op == 'I':
+				if w, ok := owner[p]; ok && w == k {
+					fmt.Fprintf(&cg, "%dI", o.n)
+					sq.WriteString(seq[q : q+o.n])
+				}
+				q += o.n
+			default:
+				lo, hi := p, p+o.n
+				if lo < v.from {
+					lo = v.from
+				}
+				if hi > v.to {
+					hi = v.to
+				}
+				if lo < hi {
+					fmt.Fprintf(&cg, "%d%c", hi-lo, o.op)
+					if o.op != 'D' && o.op != 'N' {
+						sq.WriteString(seq[q+(lo-p) : q+(hi-p)])
+					}
+				}
+				if o.op != 'D' && o.op != 'N' {
+					q += o.n
+				}
+				p += o.n
+			}
+		}
+		if r.Chance(1, 2) {
+			fmt.Fprintf(&cg, "%dH", r.Range(1, 30))
+		}
+		sqs := sq.String()
+		if sqs == "" {
+			sqs = "*"
+		}
+		fl := 0
+		if k > 0 {
+			fl = 2048
+		}
+		out = append(out, samRec{flag: fl, pos: v.from + 1, cigar: cg.String(), seq: sqs})
+	}
+	return out
+}
+
 func min(a, b int) int {
 	if a < b {
 		return a
@@ -148,6 +288,10 @@ type samCase struct {
 // genSam: disjoint=true gives every query non-overlapping records (toPairAlign's precondition)
 // set by a generator around a call of genSam: the last query is named like the reference record
 var genSamRefNamedQuery bool
+
+// set by a generator around a call of genSam: overlapping agreeing records with a short insertion next to a piece's
+// end are drawn much more often (the SAM form of C05 is about exactly those layouts)
+var genSamOverlapOften bool
 
 func genSam(r *RNG, disjoint bool, maxIns int) samCase {
 	L := r.Range(10, 120)
@@ -170,7 +314,47 @@ func genSam(r *RNG, disjoint bool, maxIns int) samCase {
 			nrec = r.Range(2, 3)
 		}
 		var recs []samRec
-		if disjoint || r.Bool() {
+		if L >= 10 && (r.Chance(1, 5) || (genSamOverlapOften && r.Bool())) {
+			// one alignment cut into overlapping, agreeing records (each insertion carried by exactly one of them)
+			st := r.Range(0, L/3)
+			if r.Bool() {
+				st = 0
+			}
+			cig, seq := randCigar(r, ref, tmpl, st, r.Range(6, L-st), cigarOpts{maxIns: maxIns})
+			force := -1
+			if maxIns >= 2 && L-st >= 9 && (r.Chance(1, 3) || (genSamOverlapOften && r.Bool())) {
+				// a short and a long insertion, the short one right before the end of the first piece
+				avail := L - st
+				a := r.Range(3, avail-5)
+				b := r.Range(2, avail-a-2)
+				c := avail - a - b
+				if c > 8 {
+					c = r.Range(1, 8)
+				}
+				kLong := r.Range(2, 4)
+				kShort := r.Range(1, kLong-1)
+				k1, k2 := kShort, kLong
+				force = st + a
+				if r.Chance(1, 3) {
+					k1, k2 = kLong, kShort
+					force = st + a + b
+				}
+				cig = fmt.Sprintf("%dM%dI%dM%dI%dM", a, k1, b, k2, c)
+				seq = tmpl[st:st+a] + randSeq(r, k1, symACGT, false) + tmpl[st+a:st+a+b] + randSeq(r, k2, symACGT, false) + tmpl[st+a+b:st+a+b+c]
+			}
+			if seq != "*" {
+				recs = splitOverlap(r, cig, seq, st, force)
+				for k := range recs {
+					recs[k].name = name
+				}
+			}
+			if len(recs) > 1 {
+				sc.tags["multi-record"] = true
+				sc.tags["overlap-agree"] = true
+			}
+		}
+		if len(recs) > 0 {
+		} else if disjoint || r.Bool() {
 			// consecutive disjoint reference intervals
 			cursor := r.Range(0, L/3)
 			if r.Chance(1, 4) {
